@@ -1024,6 +1024,31 @@ func (e *CEnv) callExpr(x *CExpr) (Val, error) {
 			t = b.T
 		}
 		return Val{T: t, Term: ite(cnd, c.termOf(a), c.termOf(b))}, nil
+	case "nanos":
+		// nanos(t): the instant t as nanoseconds since the zero time
+		as, err := evalArgs()
+		if err != nil {
+			return Val{}, err
+		}
+		c.smt.declareFun("time_nanos", []string{c.sortOf(c.eng.timeType())}, "Int")
+		return Val{T: tInt, Term: app("time_nanos", as[0].Term)}, nil
+	case "lastsent":
+		// lastsent(ch): the value most recently sent on ch by this function
+		as, err := evalArgs()
+		if err != nil {
+			return Val{}, err
+		}
+		cht, ok := as[0].T.Underlying().(*types.Chan)
+		if !ok {
+			return Val{}, fmt.Errorf("lastsent needs a channel")
+		}
+		lg := "lastsent." + sortTag(c.sortOf(cht.Elem()))
+		c.ghostSorts[lg] = "(Array Int " + c.sortOf(cht.Elem()) + ")"
+		g, ok := e.st.ghost[lg]
+		if !ok {
+			g = c.ghostInit(lg)
+		}
+		return Val{T: cht.Elem(), Term: sel(g, as[0].Term)}, nil
 	case "sent", "received":
 		as, err := evalArgs()
 		if err != nil {
@@ -1283,6 +1308,9 @@ func (e *CEnv) addLoc(ms *ModSet, loc *CExpr) error {
 		if loc.Name == "sent" || loc.Name == "received" {
 			c.ghostSorts[loc.Name] = "(Array Int Int)"
 			ms.ghost[loc.Name] = true
+			if loc.Name == "sent" {
+				ms.ghost["lastsent.*"] = true
+			}
 			return nil
 		}
 		return fmt.Errorf("not a location")
